@@ -1,11 +1,21 @@
 import FitProps.CsvLemmas
+import FitProps.CsvRoundtripLemmas
 /-!
 # C19 — fitconv: FIT to CSV and back preserves messages and field values
 
 PROPERTY THEOREMS (audited by ./check): every `theorem C19_…` below. The model (`FitModel/Csv.lean`) is the
 conversion at the level of cells; the text of numbers and the quoting are abstracted (strconv / encoding/csv
-contract), the arithmetic of the scaled mode is the parameter `Arith` (hypothesis: it gives every value back; tested
-on the implementation by the `csvarith` operations of the family).
+contract). The arithmetic of the scaled mode is the parameter `Arith` of the model; its instance `Arith.so`
+(`FitModel/CsvArith.lean`) is kit/scaleoffset + fitcsv.parseValue over the bit-exact binary64 of `FitModel/F64.lean` —
+the definitions C12 is about, run by the driver and compared with the implementation through the `csvarith`
+operations — and C12 discharges the hypothesis "the arithmetic gives every value back" for every scaled field of the
+profile (`C19_scaled_roundtrip_profile`).
+
+What remains ASSUMED (not modelled): the text layer — `strconv` (decimal text ↔ integer; `FormatFloat`/`ParseFloat`
+inverse of each other on float64; the text of a scaled value contains a '.', which holds for "x.0" and for every
+mantissa of more than one digit — a one-digit mantissa with exponent below −4, "1e-05", has none and no
+(scale, raw) of the profile produces one), `encoding/csv` quoting, `unicode.IsPrint`; and scaled 64-bit fields (none in
+the profile: `C12_profile_pairs_in_range`).
 -/
 namespace Fit.C19
 open Fit.Msg Fit.Value Fit.Csv Fit.Gen Fit.Gen.Csv
@@ -91,30 +101,175 @@ theorem C19_scaled_roundtrip (ar : Arith) (o : Opts) (ds : List Desc) (msg : Mes
     readCell ar ds msg.num (writeField o msg fld) = .ok (.field (mkField p.num p.bt fld.value)) :=
   field_rt_scaled ar o ds msg fld pm p hpm hnum hn hp hfn hdeg hraw hsc hsub harr hb hv har
 
+/-- **The default (scaled) mode, unconditionally, for every scaled field of the profile**: an integer field of at most
+32 bits with a scale or offset, holding any value of its type (boundaries and the invalid sentinel included), is written
+as the text of `float64(raw)/scale − offset` and read back through `math.Round((x + offset)·scale)` to the raw value —
+the arithmetic as the code computes it (`Arith.so`), no hypothesis on it left: `C12_csv` / `C12_scale_roundtrip_rounded`
+for every (scale, offset) pair of the regenerated profile (`scaledPairsOK` ties the two regenerated tables). -/
+theorem C19_scaled_roundtrip_profile (o : Opts) (ds : List Desc) (msg : Message) (fld : Field) (pm : PMesg) (p : PField)
+    (hpm : pm ∈ profile) (hnum : pm.num = msg.num) (hn : msg.num < mfgRangeMin) (hp : p ∈ pm.fields)
+    (hfn : fieldNumOf fld = p.num) (hdeg : o.degrees = false) (hraw : o.raw = false) (hsc : isScaledField p.scale p.offset = true)
+    (hsub : substitute msg.fields p.subs = none) (harr : p.array = false) (hb : p.isBool = false)
+    (hv : scalarOK p.bt false fld.value = true) (ty : Fit.F64.IntTy) (pat : Nat) (hi : int32Scalar fld.value = some (ty, pat)) :
+    readCell Arith.so ds msg.num (writeField o msg fld) = .ok (.field (mkField p.num p.bt fld.value)) :=
+  field_rt_scaled_so o ds msg fld pm p hpm hnum hn hp hfn hdeg hraw hsc hsub harr hb hv ty pat hi
+
+/-- non-vacuity: record.distance (uint32, scale 100): the raw value 16039 — the value design finding F07 turned into
+16038 before /repo 1e2d662 — comes back -/
+example : Arith.so.scaled (.uint32 16039) btUint32 0x4059000000000000 0 = some (.uint32 16039) := by decide +kernel
+
+/-- **An array survives the round trip through its `|`-joined cell**, element by element: for a non-empty array of
+decoded scalars of the field's base type (every integer width, floats, strings within the safe alphabet, bools), read
+as an array because the field is an array field or because the cell has several pieces; the result is the array of the
+elements' normal forms (`packValues`: the reader's slice constructor). -/
+theorem C19_array_roundtrip (ar : Arith) (bt : Nat) (isBool : Bool) (scale offset : Nat) (units : Txt) (v : Value) (es : List Value)
+    (he : elemsOf v = (es, true)) (hne : es ≠ []) (hall : ∀ e ∈ es, scalarOK bt isBool e = true)
+    (hu : ¬(units = degreesTxt ∧ bt = btSint32))
+    (hf : (bt = btFloat32 ∨ bt = btFloat64) → isScaledField scale offset = false)
+    (array : Bool) (hflag : array = true ∨ es.length ≠ 1) :
+    parseCellValue ar (cellPieces (formatAtoms v)) bt isBool array scale offset units = .ok (packValues (es.map csvNormS)) :=
+  array_rt ar bt isBool scale offset units v es he hne hall hu hf array hflag
+
+example : parseCellValue Arith.id (cellPieces (formatAtoms (.sliceUint16 [1, 65535, 7]))) btUint16 false true Csv.f64One 0 [] =
+    .ok (.sliceUint16 [1, 65535, 7]) := by decide +kernel
+
+/-- **A known field, scalar or array, survives the round trip through its cell** (raw mode or no scale/offset; no
+sub-field substitution): generalises `C19_field_roundtrip_raw` to arrays. -/
+theorem C19_field_roundtrip_value (ar : Arith) (o : Opts) (ds : List Desc) (msg : Message) (fld : Field) (pm : PMesg) (p : PField)
+    (hpm : pm ∈ profile) (hnum : pm.num = msg.num) (hn : msg.num < mfgRangeMin) (hp : p ∈ pm.fields)
+    (hfn : fieldNumOf fld = p.num) (hdeg : o.degrees = false) (hraw : o.raw = true ∨ isScaledField p.scale p.offset = false)
+    (hsub : substitute msg.fields p.subs = none) (harr : (elemsOf fld.value).2 = p.array)
+    (hv : valueOK p.bt p.isBool fld.value = true) :
+    readCell ar ds msg.num (writeField o msg fld) = .ok (.field (mkField p.num p.bt (csvNorm fld.value))) :=
+  field_rt_value ar o ds msg fld pm p hpm hnum hn hp hfn hdeg hraw hsub harr hv
+
+/-- **With the verbose option an unknown field survives**: it is written as `unknown(N)` with the name of its base type
+in the units cell; the reader takes the digits of the name for the field number and the units for the base type, and
+parses the value back (scalar, or an array of at least two elements). The digits of N come back as N for every N
+(`natDigits_spec`); the base type names map back (`baseTypeNamesOK`, regenerated table); no name of the reader's
+tables starts with "unknown" (`lookupNamesOK`). -/
+theorem C19_unknown_field_roundtrip (ar : Arith) (o : Opts) (ds : List Desc) (msg : Message) (fld : Field)
+    (hverb : o.verbose = true) (hunk : pfield msg.num (fieldNumOf fld) = none) (hnum : fieldNumOf fld < 256)
+    (hbt : ∃ s, (fieldBtOf fld, s) ∈ baseTypeNames) (hv : valueOK (fieldBtOf fld) false fld.value = true)
+    (hshape : (elemsOf fld.value).2 = true → (elemsOf fld.value).1.length ≠ 1) :
+    readCell ar ds msg.num (writeField o msg fld) =
+      .ok (.field (mkField (fieldNumOf fld) (fieldBtOf fld) (csvNorm fld.value))) :=
+  unknown_field_rt ar o ds msg fld hverb hunk hnum hbt hv hshape
+
+/-- **A developer field survives the round trip through its cell**: the writer names it after the most recent
+description of its (developer data index, field number) — the parts of a name joined with `|` —; the reader finds the
+most recent description carrying that name (the same one when names are unique, the property's condition), takes its
+base type, and parses the value back — whatever scale and offset the description carries: the writer prints developer
+field values as they are and the reader, since the fix of KF-C19-6 (it used to un-scale a float cell with the
+description's scale and offset), does not discard them. -/
+theorem C19_dev_field_roundtrip (ar : Arith) (o : Opts) (ds : List Desc) (mesgNum : Nat) (dv : DevField) (d : Desc)
+    (hfind : findDesc ds dv.devIdx dv.num = some d) (hname : ds.reverse.find? (fun x => x.name == d.name) = some d)
+    (hnative : lookupFieldNum mesgNum d.name = none) (hne : d.name.isEmpty = false)
+    (hunk : isPrefixOf' unknownTxt d.name = false)
+    (hv : valueOK d.bt false dv.value = true) (hdeg : ¬(d.units = degreesTxt ∧ d.bt = btSint32))
+    (hshape : (elemsOf dv.value).2 = true → (elemsOf dv.value).1.length ≠ 1) :
+    readCell ar ds mesgNum (writeDev o ds dv) = .ok (.dev ⟨dv.devIdx, dv.num, csvNorm dv.value⟩) :=
+  dev_field_rt ar o ds mesgNum dv d hfind hname hnative hne hunk hv hdeg hshape
+
+/-- the former witness of KF-C19-6 (fixed): a float32 developer field holding 0.5 whose description has scale 100 is
+written as "0.5" and read back as 0.5 (it used to come back as 50.0) -/
+theorem C19_dev_float_scale_fixed :
+    let d : Desc := { devIdx := 0, num := 0, name := txt "ratio", units := [], bt := btFloat32, scale := 100, offset := 127 }
+    let dv : DevField := { devIdx := 0, num := 0, value := .float32 0x3f000000 }
+    valueOK d.bt false dv.value = true ∧
+    (match readCell Arith.so [d] 20 (writeDev {} [d] dv) with
+     | .ok (.dev back) => back.value == .float32 0x3f000000
+     | _ => false) = true := by decide +kernel
+
+/-- **Sub-field substitution and its reversal.** (1) A field one of whose sub-fields applies is written under the
+sub-field's name and units. (2) The reader finds no native field of that name in the message (regenerated tables:
+`subNamesOK`) and keeps the cell as a placeholder. (3) Once the message is read, `revertSubFieldSubtitution` replaces
+the placeholder by the MAIN field as soon as one of the sub-field's maps matches the reference field as read, and
+parses the value with the main field's base type, scale, offset and units — the name designates one main field only
+(`subNamesOK`), whatever other sub-fields the message's fields have. -/
+theorem C19_subfield_roundtrip (ar : Arith) (o : Opts) (ds : List Desc) (msg : Message) (fld : Field) (pm : PMesg) (p : PField) (s : PSub)
+    (hpm : pmesg msg.num = some pm) (hn : msg.num < mfgRangeMin) (hp : p ∈ pm.fields) (hs : s ∈ p.subs)
+    (hpf : pfield msg.num (fieldNumOf fld) = some p) (hdeg : o.degrees = false)
+    (hsub : substitute msg.fields p.subs = some s)
+    (hds : ds.reverse.find? (fun d => d.name == txt s.name) = none) :
+    writeField o msg fld = ⟨txt s.name, fieldAtoms o (txt p.units) p.scale p.offset fld.value, txt s.units⟩ ∧
+    readCell ar ds msg.num (writeField o msg fld) =
+      .ok (.placeholder (txt s.name) (fieldAtoms o (txt p.units) p.scale p.offset fld.value)) ∧
+    ∀ (fields : List Field) (mp : Nat × Int) (a : Atom) (v : Value), mp ∈ s.maps →
+      toInt64 (fvalFirst fields mp.1) = some mp.2 →
+      parseAtom ar a p.bt p.isBool p.scale p.offset (txt p.units) = .ok v →
+      revert ar msg.num fields (txt s.name) [a] = .ok (some (mkField p.num p.bt v)) := by
+  have hm : pm ∈ profile := List.mem_of_find?_eq_some hpm
+  have hnum : pm.num = msg.num := by simpa using List.find?_some hpm
+  have hw := subfield_write o msg fld p s hpf hdeg hsub
+  refine ⟨hw, ?_, fun fields mp a v hmp hmatch hparse =>
+    subfield_revert ar msg.num pm p s hpm hn hp hs fields mp hmp hmatch a v hparse⟩
+  rw [hw, ← hnum]
+  exact subfield_placeholder ar ds pm p s hm (hnum ▸ hn) hp hs _ _ hds
+
+/-- **What the reader removes after reading a message** (`removeExpandedComponents`): with distinct field numbers,
+exactly the fields that are a component target of a field present (own components or those of any of its sub-fields)
+— the property's own condition "no field that is also the expansion target of another field present" is what keeps
+every WRITTEN (non-expanded) field, and the expanded ones are re-created by the decoder. -/
+theorem C19_removes_expansion_targets (mesgNum : Nat) (fs : List Field) (hb : ∀ f ∈ fs, f.base.isSome = true)
+    (hnd : (fs.map fieldNumOf).Nodup) :
+    removeExpanded mesgNum fs = fs.filter (fun f => !(fs.flatMap (targetsOf mesgNum)).contains (fieldNumOf f)) :=
+  removeExpanded_filter mesgNum fs hb hnd
+
 /-- the full statement of the round trip: every chain of files within `CsvUnambiguous` comes back as the expected
-messages (arrays, sub-field substitution, unknown messages and fields with verbose, developer fields, and — under the
-arithmetic hypothesis `Arith.id` — scaled values), in as many sequences as files. Proved below for the class of
-`PlainMesg` files; the rest of the class is tied by the correspondence and the property predicate of family `csv`. -/
+messages, in as many sequences as files — with the arithmetic as the code computes it. Proved: `C19_roundtrip_partial`
+(every file-level clause, for messages made of known fields — scalar or array; raw, unscaled or SCALED —, unknown
+fields and unknown messages, kept with verbose and dropped without, component targets removed) and, cell by cell,
+developer fields (`C19_dev_field_roundtrip`) and sub-field substitution with its reversal (`C19_subfield_roundtrip`).
+What is missing for the `def` to become a theorem: carrying the description list through a file at the message level
+(developer fields) and `revertAll` over several placeholders of one message (sub-fields) — both tied by the
+correspondence and the property predicate of family `csv` on every run —, and two facts about DECODED input that
+`csvUnambiguousB` does not state (the fields flagged expanded are exactly the component targets present; values are in
+the decoder's normal form, `csvNorm v = v`). -/
 def C19_roundtrip_full : Prop :=
   ∀ (o : Opts) (files : List (List Message)), files ≠ [] → csvUnambiguousB o files = true →
-    fromCsvPre Arith.id (toCsv o files) = .ok ⟨expected o files, files.length⟩
+    fromCsvPre Arith.so (toCsv o files) = .ok ⟨expected o files, files.length⟩
 
-/-- **FIT → CSV → FIT gives the messages back, file by file** — for chains of files that start with their only file_id
-and consist of `PlainMesg` messages (listed message numbers, no developer fields, scalar fields without sub-field
-substitution, written raw or without scale/offset): the reader returns exactly as many sequences as there were files
-(`C19_sequences` for this class) and each sequence is the file's messages, every field with its number, base type and
-value (`normMesg`). Any number of files, messages and fields. -/
+/-- **FIT → CSV → FIT gives the messages back, file by file** — raw mode and the default scaled mode, with and without
+the verbose option, any number of files, messages and fields: for chains of files that start with their only file_id
+and whose messages (`GoodMesg`) have no developer fields and consist of known fields without sub-field substitution
+holding what the decoder produces for their base type (scalar or array; scaled fields: integer scalars of at most 32
+bits) and of unknown fields, the reader returns exactly as many sequences as there were files and each sequence is the
+file's messages as `expMesg` says: every field with its number, base type and value; unknown messages and fields kept
+with the verbose option (`unknown(N)`, base type from the units cell) and dropped without it; the component targets of
+fields present removed (`C19_removes_expansion_targets`). The arithmetic is the code's (`Arith.so`). -/
+theorem C19_roundtrip_partial (o : Opts) (hdeg : o.degrees = false) (files : List (List Message)) (hne : files ≠ [])
+    (hshape : ∀ f ∈ files, FileShape f) (hgood : ∀ f ∈ files, ∀ m ∈ f, GoodMesg o m) :
+    fromCsvPre Arith.so (toCsv o files) = .ok ⟨files.map (·.filterMap (expMesg o)), files.length⟩ :=
+  roundtrip_so o hdeg files hne hshape hgood
+
+/-- non-vacuity of `C19_roundtrip_partial`: a file with a file_id, a record carrying a SCALED field (distance, uint32,
+scale 100, the F07 value), an array field and an unknown field, and an unknown message — with the verbose option, default
+(scaled) mode — meets the hypotheses -/
+def demoFile : List Message :=
+  [{ num := 0, devFields := [], fields := [mkField 0 btEnum (.uint8 4)] },
+   { num := 20, devFields := [], fields := [mkField 5 btUint32 (.uint32 16039), mkField 250 btUint16 (.sliceUint16 [3, 4])] },
+   { num := 65000, devFields := [], fields := [mkField 1 btSint8 (.int8 200)] }]
+
+example : FileShape demoFile ∧ ∀ m ∈ demoFile, GoodMesg { verbose := true } m :=
+  ⟨⟨_, _, rfl, rfl, by decide⟩, by decide +kernel⟩
+
+example : (match fromCsvPre Arith.so (toCsv { verbose := true } [demoFile]) with
+    | .ok b => b.seqs == [demoFile] && b.seq == 1
+    | _ => false) = true := by decide +kernel
+
+/-- **Chained inputs come back as the same number of sequences** (same class) -/
+theorem C19_sequences_partial (o : Opts) (hdeg : o.degrees = false) (files : List (List Message)) (hne : files ≠ [])
+    (hshape : ∀ f ∈ files, FileShape f) (hgood : ∀ f ∈ files, ∀ m ∈ f, GoodMesg o m) :
+    ∃ b, fromCsvPre Arith.so (toCsv o files) = .ok b ∧ b.seq = files.length ∧ b.seqs.length = files.length := by
+  refine ⟨_, roundtrip_so o hdeg files hne hshape hgood, rfl, ?_⟩
+  simp
+
+/-- the earlier statement for plain scalar messages, for ANY arithmetic (nothing scaled is written) -/
 theorem C19_raw_roundtrip_partial (ar : Arith) (o : Opts) (hdeg : o.degrees = false) (files : List (List Message))
     (hne : files ≠ []) (hshape : ∀ f ∈ files, FileShape f) (hplain : ∀ f ∈ files, ∀ m ∈ f, PlainMesg o m) :
     fromCsvPre ar (toCsv o files) = .ok ⟨files.map (·.map normMesg), files.length⟩ :=
   fromCsvPre_plain ar o hdeg files hne hshape hplain
-
-/-- **Chained inputs come back as the same number of sequences** (same class) -/
-theorem C19_sequences_partial (ar : Arith) (o : Opts) (hdeg : o.degrees = false) (files : List (List Message))
-    (hne : files ≠ []) (hshape : ∀ f ∈ files, FileShape f) (hplain : ∀ f ∈ files, ∀ m ∈ f, PlainMesg o m) :
-    ∃ b, fromCsvPre ar (toCsv o files) = .ok b ∧ b.seq = files.length ∧ b.seqs.length = files.length := by
-  refine ⟨_, fromCsvPre_plain ar o hdeg files hne hshape hplain, rfl, ?_⟩
-  simp
 
 /-- non-vacuity: the invalid uint16 of a field with scale 1 -/
 example : parseCellValue Arith.id (cellPieces (formatAtoms (.uint16 65535))) btUint16 false false Csv.f64One 0 [109] = .ok (.uint16 65535) := by
